@@ -37,12 +37,16 @@ impl MemoryStore {
     }
 
     fn set_impl(&self, key: &StoreKey, value: &[u8], offset: ByteOffset, truncate: bool) {
+        #[cfg(zarrs_verif)]
+        crate::verif_hooks::emit("mem.set.map", &[]);
         let mut data_map = self.data_map.lock().unwrap();
         let data = data_map
             .entry(key.clone())
             .or_insert_with(|| Arc::new(RwLock::default()))
             .clone();
         drop(data_map);
+        #[cfg(zarrs_verif)]
+        crate::verif_hooks::emit("mem.set.cell", &[]);
         let mut data = data.write();
 
         if offset == 0 && data.is_empty() {
@@ -63,11 +67,15 @@ impl MemoryStore {
 
 impl ReadableStorageTraits for MemoryStore {
     fn get(&self, key: &StoreKey) -> Result<MaybeBytes, StorageError> {
+        #[cfg(zarrs_verif)]
+        crate::verif_hooks::emit("mem.get.map", &[]);
         let data_map = self.data_map.lock().unwrap();
         let data = data_map.get(key);
         if let Some(data) = data {
             let data = data.clone();
             drop(data_map);
+            #[cfg(zarrs_verif)]
+            crate::verif_hooks::emit("mem.get.cell", &[]);
             let data = data.read();
             Ok(Some(data.clone().into()))
         } else {
@@ -80,11 +88,15 @@ impl ReadableStorageTraits for MemoryStore {
         key: &StoreKey,
         byte_ranges: &[ByteRange],
     ) -> Result<Option<Vec<Bytes>>, StorageError> {
+        #[cfg(zarrs_verif)]
+        crate::verif_hooks::emit("mem.getp.map", &[]);
         let data_map = self.data_map.lock().unwrap();
         let data = data_map.get(key);
         if let Some(data) = data {
             let data = data.clone();
             drop(data_map);
+            #[cfg(zarrs_verif)]
+            crate::verif_hooks::emit("mem.getp.cell", &[]);
             let data = data.read();
             let mut out = Vec::with_capacity(byte_ranges.len());
             for byte_range in byte_ranges {
@@ -111,6 +123,8 @@ impl ReadableStorageTraits for MemoryStore {
     }
 
     fn size_key(&self, key: &StoreKey) -> Result<Option<u64>, StorageError> {
+        #[cfg(zarrs_verif)]
+        crate::verif_hooks::emit("mem.size.map", &[]);
         let data_map = self.data_map.lock().unwrap();
         data_map
             .get(key)
@@ -151,6 +165,8 @@ impl WritableStorageTraits for MemoryStore {
     }
 
     fn erase(&self, key: &StoreKey) -> Result<(), StorageError> {
+        #[cfg(zarrs_verif)]
+        crate::verif_hooks::emit("mem.erase.map", &[]);
         let mut data_map = self.data_map.lock().unwrap();
         data_map.remove(key);
         Ok(())
